@@ -89,6 +89,10 @@ for i,m in enumerate(METHODS):
 for a,b in [(5,0),(0,1),(2,3),(8,5)]:
     c08.append(job(f"seq-{METHODS[a]}-{METHODS[b]}",".","VH_ClientCmd",["C08/"],{"method":a,"method2":b,"unsol":1,"trans":0,"bad":1},T,
        bounds=f"{METHODS[a]} then {METHODS[b]} (kernel queue drained in between)"))
+# one client, two commands: what the second returns must not depend on what the first returned
+for a,b in [(1,1),(1,4),(4,1),(4,4),(0,0),(1,0),(0,4),(3,1),(2,1)]:
+    c08.append(job(f"seq-{METHODS[a]}-{METHODS[b]}",".","VH_ClientCmd",["C08/"],{"method":a,"method2":b,"unsol":0,"trans":0,"bad":0},Q,
+       bounds=f"{METHODS[a]} then {METHODS[b]} on the same client (kernel queue drained in between): each with its own symbolic errno, 0..2 rules / 32..44 status bytes"))
 for pat,pn in [(0,"eintr"),(1,"eagain"),(2,"alternating")]:
     for jj in ([0,9,10] if pat==0 else [9,10]):
         c08.append(job(f"retry-{pn}-{jj}",".","VH_ClientRetry",["C08/"],{"j":jj,"pattern":pat},Q,bounds=f"exactly {jj} consecutive transient failures ({pn}) then the ACK with symbolic errno"))
@@ -136,6 +140,7 @@ C["C18"]={"jobs":c18,"assumptions":["syscall.Sendto/Recvfrom/Close are harness-s
 
 PARSE_ASSUME=["symbolic subject bytes are ASCII (< 0x80): the regexp summary is exact only there (enforced, not silently assumed)","regexp matching summarised per call by running the real regexp on one representative per byte-class vector",
   "fmt formatting, net.IP.String and time.Time.String are engine summaries (a panic inside them would not be seen)"]
+KEYS=["saddr","argc","a0","a1","exit","arch","syscall","sig","subj","obj","key","success","res","auid","old-auid","ses","cwd","exe","proctitle","cmd","data","name","acct","msg"]
 TYPES=["SYSCALL","SECCOMP","SOCKADDR","PROCTITLE","USER_CMD","TTY","USER_TTY","EXECVE","PATH","USER_LOGIN","AVC","LOGIN","CRED_DISP","USER_START","USER_END","EOE","1999"]
 c05=[job("line-0-5","auparse","VH_LineTotal",["C05/"],{"maxlen":5},Q,bounds="ParseLogLine on every ASCII line of 0..5 symbolic bytes"),
      job("line-0-7","auparse","VH_LineTotal",["C05/"],{"maxlen":7},T,bounds="ParseLogLine on every ASCII line of 0..7 symbolic bytes")]
@@ -149,9 +154,13 @@ c05.append(job("header-window-3","auparse","VH_HeaderBad",["C05/"],{"mode":5,"wi
 c05.append(job("header-overwrite-2","auparse","VH_HeaderBad",["C05/"],{"mode":6},Q,bounds="a well-formed line with any two header positions overwritten by symbolic ASCII bytes"))
 c05.append(job("body-avc-middle-word","auparse","VH_BodyTotal",["C05/"],{"maxlen":5,"type":10,"avc":2},Q,bounds="AVC record \"avc:  denied  <..> for  pid=1 ...\" (blank before \"for\" written out) with the part where the permission set belongs every ASCII string of 0..5 symbolic bytes"))
 c05.append(job("body-avc-middle","auparse","VH_BodyTotal",["C05/"],{"maxlen":4,"type":10,"avc":1},Q,bounds="AVC record \"avc:  denied  <..>for  pid=1 ...\" with the part where the permission set belongs every ASCII string of 0..4 symbolic bytes"))
+for t in ("SYSCALL","EXECVE","PATH","AVC"):
+    c05.append(job(f"warm-body-{t}","auparse","VH_BodyTotal",["C05/"],{"maxlen":3,"type":TYPES.index(t),"warm":1},Q,bounds=f"Parse({t}, header + body), body 0..3 symbolic ASCII bytes, after seven ordinary records were parsed and read (parser state not fresh); those are read again at the end"))
+for k in ("a0","saddr","key","name"):
+    c05.append(job(f"warm-field-{k}","auparse","VH_FieldTotal",["C05/"],{"key":KEYS.index(k) if 'KEYS' in dir() else 0,"maxlen":2,"type":{"saddr":2,"a0":7,"name":8}.get(k,0),"with":{"a0":2}.get(k,0),"warm":1},Q,bounds=f"{k}=<v>, v of 0..2 symbolic ASCII bytes in three quotings, after the warm-up"))
 c05.append(job("bare-header","auparse","VH_BodyTotal",["C05/"],{"maxlen":4,"type":0,"bare":1},Q,bounds="Parse(SYSCALL, \"audit(1.000:1)\" + tail) for every ASCII tail of 0..4 symbolic bytes (no separator after the header)"))
 c05.append(job("body-anytype","auparse","VH_BodyTotal",["C05/"],{"maxlen":4,"type":-1},T,bounds="record type symbolic (16 bit), body 0..4 symbolic ASCII bytes"))
-KEYS=["saddr","argc","a0","a1","exit","arch","syscall","sig","subj","obj","key","success","res","auid","old-auid","ses","cwd","exe","proctitle","cmd","data","name","acct","msg"]
+KEYS_=["saddr","argc","a0","a1","exit","arch","syscall","sig","subj","obj","key","success","res","auid","old-auid","ses","cwd","exe","proctitle","cmd","data","name","acct","msg"]
 KT={"saddr":2,"argc":7,"a0":7,"a1":7,"sig":1,"obj":8,"name":8,"res":9,"acct":9,"old-auid":11,"proctitle":3,"cmd":4,"data":5,"msg":13}
 KW={"syscall":1,"a0":2,"a1":2,"argc":3}
 for i,k in enumerate(KEYS):
@@ -243,6 +252,14 @@ for w,name in enumerate(["result-words","result-arbitrary","unset-ids","exit-err
        bounds={"result-words":"success=yes|no, res=1|0|success|failed","result-arbitrary":"res=<3 symbolic bytes>: result is success or fail","unset-ids":"auid/ses/old-auid = -1, 4294967295 or a symbolic uint32 written in decimal","exit-errno":"exit=-N for every errno in the table, symbolic non-negative codes, an unknown negative code","arch-syscall":"every architecture x every syscall number of its table, plus an unknown number"}[name]))
 c12.append(job("derived-arch-syscall-sampled","auparse","VH_Derived",["C12/"],{"what":4,"len":3,"sample":1},Q,bounds="every architecture of the table x its lowest, middle and highest syscall number, plus an unknown number"))
 c12.append(job("derived-arch-syscall-x86","auparse","VH_Derived",["C12/"],{"what":4,"len":3,"onlyx86":1},QO,bounds="x86_64: every syscall number of its table, plus an unknown number"))
+# the same after the parser has been used on seven ordinary records (state kept between calls)
+c12.append(job("warm-field-exe-len2","auparse","VH_EncodedField",["C12/"],{"case":0,"len":2,"warm":1},Q,bounds="exe of 2 symbolic bytes, after seven ordinary records were parsed and read; those are compared again at the end"))
+c12.append(job("warm-field-name-len2","auparse","VH_EncodedField",["C12/"],{"case":2,"len":2,"warm":1},Q,bounds="PATH name of 2 symbolic bytes, after the warm-up"))
+c12.append(job("warm-field-cmd-len2","auparse","VH_EncodedField",["C12/"],{"case":4,"len":2,"warm":1},Q,bounds="USER_CMD cmd of 2 symbolic bytes, after the warm-up"))
+c12.append(job("warm-execve-2x2","auparse","VH_Execve",["C12/"],{"argc":2,"len":2,"warm":1},Q,bounds="EXECVE argc=2, 2 symbolic bytes each, after the warm-up"))
+c12.append(job("warm-saddr-ipv4","auparse","VH_Saddr",["C12/"],{"family":0,"len":3,"warm":1},Q,bounds="ipv4 SOCKADDR after the warm-up"))
+c12.append(job("warm-saddr-unix","auparse","VH_Saddr",["C12/"],{"family":2,"len":3,"warm":1},Q,bounds="unix SOCKADDR after the warm-up"))
+c12.append(job("warm-plain-len2","auparse","VH_PlainField",["C12/"],{"len":2,"warm":1},Q,bounds="plain field of 2 symbolic bytes after the warm-up"))
 C["C12"]={"jobs":c12,"assumptions":PARSE_ASSUME+["the kernel's encoding rule (audit_log_untrustedstring) is re-implemented in the harness: double quotes iff all bytes in 0x21..0x7e and not '\"', else upper-case hex",
    "values obey the property's exclusions (no leading/trailing quote character, no trailing backslash) and are not one of the placeholders","name tables themselves are the oracle for the name cases (C20 checks the tables)"],
    "outside":["values longer than 4-5 bytes","correctness of net.IP.String (summarised as an injective rendering)"]}
